@@ -13,7 +13,7 @@ echo "== without the change: demo"
 echo "== with the change: test suite"
 ( cd $W && PYTHONPATH=$W/src timeout 900 /venv/bin/python -m pytest -q -p no:cacheprovider --timeout=900 2>&1 | tail -1 )
 echo "== with the change: demo"
-( cd $W && PYTHONPATH=$W/src timeout 300 /venv/bin/python $D/demo.py 2>&1 | tail -2 ); echo "   exit ${PIPESTATUS[0]}"
+( cd $W && PYTHONPATH=$W/src timeout 300 /venv/bin/python $D/demo.py 2>&1 | tail -2 )
 git -C /repo worktree remove --force $W
 git -C /repo status --short | grep -q . && { echo "/repo is dirty, refusing"; exit 2; }
 git -C /repo apply $D/patch.diff || exit 2
